@@ -541,7 +541,10 @@ class Taint:
                 b.v = join(b.v, args[-1] if f.attr != 'extend' else self.iter_elem(args[0]))
                 return CLEAN()
             if b.kind == 'model' and f.attr == 'synthetic_data':
-                r = AV(False, kind='dataset', dom=b.dom if b.dom is not None else CLEAN())
+                # the number of generated rows (and anything else passed in) shows in the output
+                given = [a for a in list(args) + [v for _, v in (kws.items() if isinstance(kws, dict) else kws)] if a is not None and a.anyt()]
+                r = AV(bool(given), kind='dataset', dom=b.dom if b.dom is not None else CLEAN(),
+                       why=('synthetic data generated with an argument derived from ' + (given[0].reason() or 'private data')) if given else None)
                 r.env = b.env
                 return r
             if b.kind == 'engine' and f.attr == 'model':
